@@ -168,6 +168,44 @@ type c10ConcCase struct {
 func genC10Conc(t *rapid.T) *c10ConcCase {
 	c := &c10ConcCase{Procs: rapid.SampledFrom([]int{2, 4, 8, 16}).Draw(t, "procs")}
 	g := rapid.IntRange(2, 10).Draw(t, "goroutines")
+	if rapid.IntRange(0, 2).Draw(t, "poolMode") == 0 {
+		// pool-collision mode: every goroutine decodes the same few medium-sized files (long enough calls
+		// to overlap), some of them truncated so that error paths return objects to the pools while other
+		// goroutines are taking objects out
+		type pf struct {
+			name string
+			data []byte
+		}
+		var files []pf
+		nf := rapid.IntRange(1, 3).Draw(t, "poolFiles")
+		for k := 0; k < nf; k++ {
+			w, h := rapid.IntRange(48, 200).Draw(t, "pw"), rapid.IntRange(48, 200).Draw(t, "ph")
+			content := rapid.SampledFrom([]string{"photo", "noise", "tiled", "pal16"}).Draw(t, "pcontent")
+			alpha := rapid.SampledFrom([]string{"opaque", "opaque", "gradient"}).Draw(t, "palpha")
+			lossless := rapid.IntRange(0, 2).Draw(t, "plossless") == 0
+			im := mkImg(w, h, content, alpha, rapid.Uint64().Draw(t, "pseed"))
+			data := mustEncode(im, func(o *gen.Opts) { o.Lossless = lossless; o.Method = 2 })
+			files = append(files, pf{fmt.Sprintf("pool-%dx%d-l%v-%s", w, h, lossless, alpha), data})
+			cut := len(data) * rapid.IntRange(30, 97).Draw(t, "pcut") / 100
+			cutData := append([]byte(nil), data[:cut]...)
+			if rapid.Bool().Draw(t, "pfix") {
+				// size fields rewritten to the shortened length: the container is consistent, the
+				// bitstream ends early (the error surfaces deep inside the frame decoder)
+				cutData = gen.TruncateFix(data, cut)
+			}
+			files = append(files, pf{fmt.Sprintf("pool-%dx%d-l%v-%s/cut%d", w, h, lossless, alpha, cut), cutData})
+		}
+		for i := 0; i < g; i++ {
+			var ops []c11Op
+			n := rapid.IntRange(3, 6).Draw(t, "pops")
+			for k := 0; k < n; k++ {
+				f := files[rapid.IntRange(0, len(files)-1).Draw(t, "pfile")]
+				ops = append(ops, c11Op{Kind: "dec", Name: f.name, File: f.data})
+			}
+			c.Lists = append(c.Lists, ops)
+		}
+		return c
+	}
 	for i := 0; i < g; i++ {
 		sub := genC11(t)
 		if len(sub.Ops) > 6 {
